@@ -32,7 +32,7 @@ theorem hold_filter (wk : Option Int) (g g0 : GW) (r : Res) (h : Hold wk g r) : 
   · exact h
 
 /-- every step except a restart respects the hold discipline -/
-theorem hold_step (g : GW) (op : Op) (hk : KeyRange g) (hne : op ≠ .restart) :
+theorem hold_step (g : GW) (op : Op) (hk : KeyRange g) (hne : op ≠ .restart) (hw : Op.wf op) :
     Hold (wakeOf g op) g (step g op) := by
   cases op with
   | line s =>
@@ -47,7 +47,8 @@ theorem hold_step (g : GW) (op : Op) (hk : KeyRange g) (hne : op ≠ .restart) :
     exact relo_setChildValue (holdStepRelO _) g n c vt v a
       (fun nd _ hn _ _ => hold_storeDesired _ g n c nd _ v hn)
       (fun nd msg hn hs hm => hold_directSet _ g n c nd _ v msg _ hn hs hm)
-  | update nids t v img => exact relo_makeUpdate (holdStepRelO _) g nids t v img
+  | update nids t v img =>
+    exact relo_makeUpdate (holdStepRelO _) g nids t v img (by intro im e; subst e; exact hw)
   | clock t => exact ⟨rfl, fun hi => hi, fun _ h => h, fun _ l hl => by simp [step] at hl⟩
   | metric b => exact ⟨rfl, fun hi => hi, fun _ h => h, fun _ l hl => by simp [step] at hl⟩
   | saveTick | stop =>
@@ -61,17 +62,17 @@ theorem hold_step (g : GW) (op : Op) (hk : KeyRange g) (hne : op ≠ .restart) :
 /-- **C07 (hold)**: whatever the history that led to `g`, a step emits a line for node `k` only if
     it is a firmware stream response, or `k` is not sleeping, or the step processes `k`'s own
     wake-up announcement. -/
-theorem nothing_to_sleeping_node (g : GW) (op : Op) (hk : KeyRange g) (hi : NodeInv g) :
+theorem nothing_to_sleeping_node (g : GW) (op : Op) (hk : KeyRange g) (hi : NodeInv g) (hw : Op.wf op) :
     ∀ l ∈ (step g op).2.sent, ∃ x : Msg, l = encLine x ∧
       (x.type = g.t.mtStream ∨ sleepingNode g x.node = false ∨ wakeOf g op = some x.node) := by
   by_cases hne : op = .restart
   · subst hne; intro l hl; simp [step] at hl
-  · exact (hold_step g op hk hne).sent hi
+  · exact (hold_step g op hk hne hw).sent hi
 
 /-- within a gateway lifetime a node that sleeps keeps sleeping (the hold never lapses) -/
-theorem sleeping_persists (g : GW) (op : Op) (hk : KeyRange g) (hne : op ≠ .restart) (k : Int)
+theorem sleeping_persists (g : GW) (op : Op) (hk : KeyRange g) (hne : op ≠ .restart) (hw : Op.wf op) (k : Int)
     (h : sleepingNode g k = true) : sleepingNode (step g op).1 k = true :=
-  (hold_step g op hk hne).mono k h
+  (hold_step g op hk hne hw).mono k h
 
 /-- **C07 (others are not delayed)**: a reply for a destination that is not sleeping (or any
     stream message) is handed to the transport in the same step -/
@@ -113,15 +114,15 @@ theorem aget_map {α β} (f : α → β) (k : Int) (l : List (Int × α)) :
     obtain ⟨k', v⟩ := p
     by_cases e : k = k' <;> simp [aget, e, ih]
 
-theorem inv_step (g : GW) (op : Op) (hk : KeyInv g) (hi : NodeInv g) (hd : DiskInv g) :
+theorem inv_step (g : GW) (op : Op) (hw : Op.wf op) (hk : KeyInv g) (hi : NodeInv g) (hd : DiskInv g) :
     NodeInv (step g op).1 ∧ DiskInv (step g op).1 := by
   by_cases hp : op.plain = true
   · have hne : op ≠ .restart := by intro e; subst e; simp [Op.plain] at hp
-    refine ⟨(hold_step g op hk.1 hne).inv hi, ?_⟩
+    refine ⟨(hold_step g op hk.1 hne hw).inv hi, ?_⟩
     intro d hdd; rw [(tr_step g op hp hk.1).disk] at hdd; exact hd d hdd
   · cases op with
     | saveTick | stop =>
-      refine ⟨(hold_step g _ hk.1 (by simp)).inv hi, ?_⟩
+      refine ⟨(hold_step g _ hk.1 (by simp) hw).inv hi, ?_⟩
       intro d hdd k p hp'
       simp only [step, save] at hdd
       split at hdd
@@ -152,17 +153,18 @@ theorem inv_step (g : GW) (op : Op) (hk : KeyInv g) (hi : NodeInv g) (hd : DiskI
       · simp [aget] at hn
     | _ => simp [Op.plain] at hp
 
-theorem inv_run (g : GW) (ops : List Op) (hk : KeyInv g) (hi : NodeInv g) (hd : DiskInv g) :
-    KeyInv (run g ops) ∧ NodeInv (run g ops) ∧ DiskInv (run g ops) := by
+theorem inv_run (g : GW) (ops : List Op) (hw : ∀ o ∈ ops, Op.wf o) (hk : KeyInv g) (hi : NodeInv g)
+    (hd : DiskInv g) : KeyInv (run g ops) ∧ NodeInv (run g ops) ∧ DiskInv (run g ops) := by
   induction ops generalizing g with
   | nil => exact ⟨hk, hi, hd⟩
   | cons op ops ih =>
-    have := inv_step g op hk hi hd
-    exact ih _ (keyInv_step g op hk) this.1 this.2
+    have := inv_step g op (hw op (by simp)) hk hi hd
+    exact ih _ (fun o ho => hw o (by simp [ho])) (keyInv_step g op hk) this.1 this.2
 
 /-- **C07 over histories**: from a freshly constructed gateway (any version / kind), after any
     history of ops, the next step sends to a sleeping node only in its own wake-up step. -/
-theorem nothing_to_sleeping_node_run (c : ConstId) (kd : Kind) (pers : Bool) (ops : List Op) (op : Op) :
+theorem nothing_to_sleeping_node_run (c : ConstId) (kd : Kind) (pers : Bool) (ops : List Op) (op : Op)
+    (hws : ∀ o ∈ ops, Op.wf o) (hw : Op.wf op) :
     let g := run { const := c, kind := kd, persist := pers } ops
     ∀ l ∈ (step g op).2.sent, ∃ x : Msg, l = encLine x ∧
       (x.type = g.t.mtStream ∨ sleepingNode g x.node = false ∨ wakeOf g op = some x.node) := by
@@ -171,8 +173,8 @@ theorem nothing_to_sleeping_node_run (c : ConstId) (kd : Kind) (pers : Bool) (op
     ⟨fun k hk => by simp [akeys] at hk, fun d hd => by simp at hd⟩
   have h0i : NodeInv { const := c, kind := kd, persist := pers } := fun k n hn => by simp [aget] at hn
   have h0d : DiskInv { const := c, kind := kd, persist := pers } := fun d hd => by simp at hd
-  obtain ⟨hk, hi, _⟩ := inv_run _ ops h0k h0i h0d
-  exact nothing_to_sleeping_node g op hk.1 hi
+  obtain ⟨hk, hi, _⟩ := inv_run _ ops hws h0k h0i h0d
+  exact nothing_to_sleeping_node g op hk.1 hi hw
 
 /-! Non-vacuity: a 2.0 node with a child announces smart sleep; a value request is then
     withheld, a request from another node is answered at once, and the withheld reply leaves
